@@ -1,3 +1,266 @@
-From Coq Require Import NArith List Bool Arith Permutation Lia.
+(* C09 - lemmas about Model.RefOrder against Spec.RefOrder. *)
+From Coq Require Import NArith List Bool Arith Permutation Relations Lia.
 From PS Require Import Base.Chars Base.Outcome Model.RefOrder Spec.RefOrder.
 Import ListNotations.
+Local Open Scope nat_scope.
+
+(* ------------------------------------------------------------------------------------------ *)
+(* small list facts *)
+Lemma memn_In i l : memn i l = true <-> In i l.
+Proof.
+  unfold memn. rewrite existsb_exists. split.
+  - intros [x [H E]]. apply Nat.eqb_eq in E. now subst.
+  - intros H. exists i. split; [assumption | apply Nat.eqb_refl].
+Qed.
+Lemma memn_false i l : memn i l = false <-> ~ In i l.
+Proof. rewrite <- memn_In. destruct (memn i l); split; congruence. Qed.
+
+Lemma NoDup_app_disjoint {A} (a b : list A) x : NoDup (a ++ b) -> In x a -> In x b -> False.
+Proof.
+  induction a as [|y a IH]; simpl; intros H Ha Hb; [contradiction|].
+  inversion H as [|? ? Hn Hd]; subst. destruct Ha as [->|Ha].
+  - apply Hn. apply in_or_app. now right.
+  - now apply IH.
+Qed.
+
+(* ------------------------------------------------------------------------------------------ *)
+(* Part A: the depth-first order.  visits = the loop over a list of rules *)
+Definition visits (f : nat) (rr : list (list nat)) (M : list nat) (js : list nat) (st : vstate) : vstate :=
+  fold_left (fun s j => visit f rr M j s) js st.
+
+Lemma visits_cons f rr M j js st : visits f rr M (j :: js) st = visits f rr M js (visit f rr M j st).
+Proof. reflexivity. Qed.
+
+Lemma visit_S f rr M i st :
+  visit (S f) rr M i st =
+  if memn i (fst st) || negb (memn i M) then st
+  else let st' := visits f rr M (children rr i) (i :: fst st, snd st) in (fst st', snd st' ++ [i]).
+Proof. reflexivity. Qed.
+
+(* structure of one visit, whatever the fuel: the rules newly marked as visited are exactly the
+   rules appended to the order; all of them are members; nothing is marked twice *)
+Definition vpost (M : list nat) (st st' : vstate) : Prop :=
+  exists new, snd st' = snd st ++ new /\ Permutation (fst st') (new ++ fst st)
+              /\ (forall x, In x new -> In x M).
+
+Lemma vpost_refl M st : vpost M st st.
+Proof. exists []. rewrite app_nil_r. repeat split; auto. intros x []. Qed.
+
+Lemma vpost_trans M a b c : vpost M a b -> vpost M b c -> vpost M a c.
+Proof.
+  intros [n1 [H1 [P1 I1]]] [n2 [H2 [P2 I2]]]. exists (n1 ++ n2). repeat split.
+  - rewrite H2, H1. now rewrite app_assoc.
+  - transitivity (n2 ++ fst b); [exact P2|]. transitivity (n2 ++ n1 ++ fst a).
+    + apply Permutation_app_head. exact P1.
+    + rewrite !app_assoc. apply Permutation_app_tail. apply Permutation_app_comm.
+  - intros x Hx. apply in_app_or in Hx. destruct Hx; auto.
+Qed.
+
+Lemma visit_struct rr M : forall f i st,
+  NoDup (fst st) -> vpost M st (visit f rr M i st) /\ NoDup (fst (visit f rr M i st)).
+Proof.
+  induction f as [|f IH]; intros i st Hnd.
+  - simpl. split; [apply vpost_refl | assumption].
+  - rewrite visit_S. destruct (memn i (fst st) || negb (memn i M)) eqn:E.
+    + split; [apply vpost_refl | assumption].
+    + apply orb_false_iff in E. destruct E as [E1 E2].
+      apply memn_false in E1. apply negb_false_iff in E2. apply memn_In in E2.
+      (* the loop over the children *)
+      assert (L : forall js s, NoDup (fst s) ->
+                  vpost M s (visits f rr M js s) /\ NoDup (fst (visits f rr M js s))).
+      { induction js as [|j js IHjs]; intros s Hs.
+        - simpl. split; [apply vpost_refl | assumption].
+        - rewrite visits_cons. destruct (IH j s Hs) as [P1 N1].
+          destruct (IHjs _ N1) as [P2 N2]. split; [eapply vpost_trans; eauto | assumption]. }
+      destruct (L (children rr i) (i :: fst st, snd st)) as [[new [H1 [P1 I1]]] N1].
+      { simpl. constructor; assumption. }
+      cbn [fst snd] in *. split; [|exact N1].
+      exists (new ++ [i]). cbn [fst snd]. repeat split.
+      * rewrite H1. now rewrite app_assoc.
+      * rewrite P1. rewrite <- app_assoc. apply Permutation_app_head. simpl.
+        apply Permutation_refl.
+      * intros x Hx. apply in_app_or in Hx. destruct Hx as [Hx|[<-|[]]]; auto.
+Qed.
+
+Lemma visits_struct rr M f : forall js st,
+  NoDup (fst st) -> vpost M st (visits f rr M js st) /\ NoDup (fst (visits f rr M js st)).
+Proof.
+  induction js as [|j js IH]; intros st Hs.
+  - simpl. split; [apply vpost_refl | assumption].
+  - rewrite visits_cons. destruct (visit_struct rr M f j st Hs) as [P1 N1].
+    destruct (IH _ N1) as [P2 N2]. split; [eapply vpost_trans; eauto | assumption].
+Qed.
+
+Lemma vpost_incl M st st' : vpost M st st' -> incl (fst st) (fst st').
+Proof.
+  intros [new [_ [P _]]] x Hx. eapply Permutation_in; [symmetry; exact P|].
+  apply in_or_app. now right.
+Qed.
+
+(* a root that is a member is marked after its visit (one unit of fuel is enough for that) *)
+Lemma visit_marks rr M f i st :
+  NoDup (fst st) -> In i M -> In i (fst (visit (S f) rr M i st)).
+Proof.
+  intros Hnd Hi. rewrite visit_S. destruct (memn i (fst st) || negb (memn i M)) eqn:E.
+  - apply orb_true_iff in E. destruct E as [E|E]; [now apply memn_In in E|].
+    apply negb_true_iff in E. apply memn_false in E. contradiction.
+  - apply orb_false_iff in E. destruct E as [E1 _]. apply memn_false in E1.
+    cbn [fst snd].
+    destruct (visits_struct rr M f (children rr i) (i :: fst st, snd st)) as [P _].
+    { simpl. constructor; assumption. }
+    apply vpost_incl in P. apply P. simpl. now left.
+Qed.
+
+Lemma topo_perm rr M : NoDup M -> Permutation (topo rr M) M.
+Proof.
+  intros HM. unfold topo. fold (visits (S (length M)) rr M M ([], [])).
+  set (F := S (length M)).
+  (* every root processed so far is marked *)
+  assert (L : forall js st, NoDup (fst st) -> incl js M ->
+              forall x, In x js \/ In x (fst st) -> In x (fst (visits F rr M js st))).
+  { induction js as [|j js IH]; intros st Hs Hjs x Hx.
+    - unfold visits. simpl. destruct Hx as [[]|Hx]; assumption.
+    - rewrite visits_cons. destruct (visit_struct rr M F j st Hs) as [P1 N1].
+      apply IH; auto.
+      + intros y Hy. apply Hjs. now right.
+      + destruct Hx as [[<-|Hx]|Hx].
+        * right. apply visit_marks; auto. apply Hjs. now left.
+        * now left.
+        * right. eapply vpost_incl; eauto. }
+  destruct (visits_struct rr M F M ([], [])) as [[new [H1 [P1 I1]]] N1]; [constructor|].
+  cbn [fst snd] in *. rewrite H1. simpl. rewrite app_nil_r in P1.
+  assert (Nn : NoDup new) by (eapply Permutation_NoDup; [exact P1 | exact N1]).
+  apply NoDup_Permutation; auto.
+  intros x. split; [apply I1|].
+  intros Hx. eapply Permutation_in; [exact P1|].
+  apply (L M ([], [])); auto using incl_refl. constructor.
+Qed.
+
+(* ---- referenced rules come first (acyclic reference graphs) ---- *)
+Lemma topo_ok_nil rr : topo_ok rr [].
+Proof. intros l1 i l2 H. destruct l1; discriminate. Qed.
+
+Lemma topo_ok_snoc rr o i : topo_ok rr o -> incl (children rr i) o -> topo_ok rr (o ++ [i]).
+Proof.
+  intros Ho Hi l1 x l2 E.
+  destruct l2 as [|y l2'] using rev_ind.
+  - apply app_inj_tail in E. destruct E as [<- <-]. exact Hi.
+  - clear IHl2'. rewrite app_comm_cons, app_assoc in E. apply app_inj_tail in E.
+    destruct E as [E _]. eapply Ho. exact E.
+Qed.
+
+Section Topo.
+  Variable rr : list (list nat).
+  Variable M : list nat.
+  Hypothesis HM : NoDup M.
+  Hypothesis Hcl : forall i, In i M -> incl (children rr i) M.
+  Hypothesis Hac : acyclic rr.
+
+  Notation "s ~> i" := (clos_trans nat (refers rr) s i) (at level 70).
+
+  Definition vinv (st : vstate) : Prop :=
+    NoDup (fst st) /\ incl (fst st) M /\ topo_ok rr (snd st) /\ incl (snd st) (fst st).
+
+  Lemma fuel_step vis i f :
+    NoDup vis -> incl vis M -> ~ In i vis -> In i M ->
+    length M - length vis < S f -> length M - length (i :: vis) < f.
+  Proof.
+    intros Hn Hi Hni HiM Hf.
+    assert (length (i :: vis) <= length M).
+    { apply NoDup_incl_length; [constructor; assumption|].
+      intros x [<-|Hx]; auto. }
+    simpl in *. lia.
+  Qed.
+
+  Lemma visit_topo : forall f i st,
+    vinv st ->
+    (forall s, In s (fst st) -> In s (snd st) \/ s ~> i) ->
+    length M - length (fst st) < f ->
+    vinv (visit f rr M i st) /\ (In i M -> In i (snd (visit f rr M i st))).
+  Proof.
+    induction f as [|f IH]; intros i st Hinv Hanc Hfuel; [lia|].
+    destruct Hinv as [Hnd [HinM [Htopo Hov]]].
+    rewrite visit_S. destruct (memn i (fst st) || negb (memn i M)) eqn:E.
+    - split; [repeat split; assumption|]. intros HiM.
+      apply orb_true_iff in E. destruct E as [E|E].
+      + apply memn_In in E. destruct (Hanc _ E) as [H|H]; [assumption|].
+        exfalso. exact (Hac _ H).
+      + apply negb_true_iff in E. apply memn_false in E. contradiction.
+    - apply orb_false_iff in E. destruct E as [E1 E2].
+      apply memn_false in E1. apply negb_false_iff in E2. apply memn_In in E2.
+      (* loop over the references of i *)
+      assert (L : forall js s, incl js (children rr i) -> vinv s ->
+                  (forall x, In x (fst s) -> In x (snd s) \/ x = i \/ x ~> i) ->
+                  length M - length (fst s) < f ->
+                  let s' := visits f rr M js s in
+                  vinv s' /\ (forall x, In x (fst s') -> In x (snd s') \/ x = i \/ x ~> i)
+                  /\ incl js (snd s') /\ incl (snd s) (snd s')).
+      { induction js as [|j js IHjs]; intros s Hjs Hs Hx Hf; cbn zeta.
+        - unfold visits; simpl. destruct Hs as [? [? [? ?]]]. repeat split; auto using incl_refl, incl_nil_l.
+        - rewrite visits_cons.
+          assert (Hj : In j (children rr i)) by (apply Hjs; now left).
+          assert (HjM : In j M) by (eapply Hcl; eauto).
+          destruct (IH j s Hs) as [Hs1 Hj1]; auto.
+          { intros x Hxs. destruct (Hx _ Hxs) as [H|[->|H]]; auto.
+            - right. apply t_step. exact Hj.
+            - right. eapply t_trans; [exact H|]. apply t_step. exact Hj. }
+          destruct Hs as [Hn0 [Hm0 [Ht0 Ho0]]].
+          destruct (visit_struct rr M f j s Hn0) as [[new [H1 [P1 I1]]] N1].
+          set (s1 := visit f rr M j s) in *.
+          assert (Hx1 : forall x, In x (fst s1) -> In x (snd s1) \/ x = i \/ x ~> i).
+          { intros x Hxs. apply (Permutation_in _ P1) in Hxs. apply in_app_or in Hxs.
+            rewrite H1. destruct Hxs as [Hn|Ho].
+            - left. apply in_or_app. now right.
+            - destruct (Hx _ Ho) as [H|H]; auto. left. apply in_or_app. now left. }
+          assert (Hf1 : length M - length (fst s1) < f).
+          { rewrite (Permutation_length P1), app_length. lia. }
+          destruct (IHjs s1) as [Hs' [Hx' [Hjs' Hinc']]]; auto.
+          { intros y Hy. apply Hjs. now right. }
+          split; [exact Hs'|]. split; [exact Hx'|]. split.
+          + intros y [<-|Hy]; [|now apply Hjs'].
+            apply Hinc'. now apply Hj1.
+          + intros y Hy. apply Hinc'. rewrite H1. apply in_or_app. now left. }
+      destruct (L (children rr i) (i :: fst st, snd st)) as [[Hn' [Hm' [Ht' Ho']]] [Hx' [Hch' Hinc']]].
+      + apply incl_refl.
+      + repeat split; cbn [fst snd]; auto.
+        * constructor; assumption.
+        * intros x [<-|Hx]; auto.
+        * intros x Hx. right. now apply Hov.
+      + cbn [fst snd]. intros x [<-|Hx]; auto.
+        destruct (Hanc _ Hx) as [H|H]; auto.
+      + cbn [fst]. apply fuel_step; auto.
+      + cbn [fst snd] in *.
+        set (s' := visits f rr M (children rr i) (i :: fst st, snd st)) in *.
+        assert (Hi' : In i (fst s')).
+        { destruct (visits_struct rr M f (children rr i) (i :: fst st, snd st)) as [P _].
+          - simpl. constructor; assumption.
+          - apply vpost_incl in P. apply P. simpl. now left. }
+        split.
+        * repeat split; cbn [fst snd]; auto.
+          -- apply topo_ok_snoc; assumption.
+          -- intros x Hx. apply in_app_or in Hx. destruct Hx as [Hx|[<-|[]]]; auto.
+        * intros _. apply in_or_app. right. now left.
+  Qed.
+
+  Lemma topo_topo_ok : topo_ok rr (topo rr M).
+  Proof.
+    unfold topo. fold (visits (S (length M)) rr M M ([], [])).
+    set (F := S (length M)).
+    assert (L : forall js st, vinv st -> incl (fst st) (snd st) -> vinv (visits F rr M js st)
+                /\ incl (fst (visits F rr M js st)) (snd (visits F rr M js st))).
+    { induction js as [|j js IH]; intros st Hs Heq.
+      - unfold visits; simpl. auto.
+      - rewrite visits_cons.
+        destruct (visit_topo F j st Hs) as [Hs1 _].
+        + intros s Hs0. left. now apply Heq.
+        + unfold F. lia.
+        + apply IH; auto.
+          destruct Hs as [Hn0 _].
+          destruct (visit_struct rr M F j st Hn0) as [[new [H1 [P1 I1]]] N1].
+          intros x Hx. apply (Permutation_in _ P1) in Hx. rewrite H1.
+          apply in_app_or in Hx. apply in_or_app. destruct Hx; auto. }
+    destruct (L M ([], [])) as [[_ [_ [H _]]] _]; auto.
+    - repeat split; simpl; auto using incl_refl, topo_ok_nil. constructor. intros x [].
+    - apply incl_refl.
+  Qed.
+End Topo.
